@@ -56,7 +56,7 @@ def run(tier, seed):
     meta = {
         "level": "model_checking",
         "rule": "3-task FS/SS(/FF) workflows and 4 parallel tasks x worker layouts (one/two pooled, mixed, solo, fixed-ID lists incl. empty) x task rules "
-        "x the FAC facility family, each explored over all absence answers (project, each worker, each facility) up to horizon H with <= D non-default answers "
+        "x the FAC facility family (plus slices run as a first call with state initialisation off, as restarts with the states reset and the logs kept, as continued runs with an absence list edited at the stop, as second runs, as backward runs), each explored over all absence answers (project, each worker, each facility) up to horizon H with <= D non-default answers "
         "(absence of a resource that is holding a task is the interesting deviation); non-trivial = distinct allocation states with more claimant tasks than workers",
         "bounds": {"H": H, "D": D, "base_models": len(its)},
         "assumptions": ["deterministic skills (sd 0)"],
